@@ -7,12 +7,14 @@ package main
 import (
 	"context"
 	"fmt"
+	"github.com/prometheus/client_golang/prometheus"
 	"math/rand"
 	"reflect"
 	"sort"
 	"strings"
 
 	batchv1 "k8s.io/api/batch/v1"
+	corev1 "k8s.io/api/core/v1"
 	metav1 "k8s.io/apimachinery/pkg/apis/meta/v1"
 	"k8s.io/apimachinery/pkg/apis/meta/v1/unstructured"
 	"k8s.io/apimachinery/pkg/runtime"
@@ -25,6 +27,7 @@ import (
 	trialsv1beta1 "github.com/kubeflow/katib/pkg/apis/controller/trials/v1beta1"
 	api "github.com/kubeflow/katib/pkg/apis/manager/v1beta1"
 	trialctl "github.com/kubeflow/katib/pkg/controller.v1beta1/trial"
+	trialutil "github.com/kubeflow/katib/pkg/controller.v1beta1/trial/util"
 )
 
 type quietDB struct{}
@@ -39,9 +42,97 @@ func (quietDB) ReportTrialObservationLog(*trialsv1beta1.Trial, *api.ObservationL
 	return &api.ReportObservationLogReply{}, nil
 }
 
+// rowsDB: a metrics database with rows per trial; DeleteTrialObservationLog fails on request
+type rowsDB struct {
+	rows    map[string]int
+	fail    bool
+	deletes int
+}
+
+func (d *rowsDB) GetTrialObservationLog(*trialsv1beta1.Trial) (*api.GetObservationLogReply, error) {
+	return &api.GetObservationLogReply{ObservationLog: &api.ObservationLog{}}, nil
+}
+func (d *rowsDB) DeleteTrialObservationLog(t *trialsv1beta1.Trial) (*api.DeleteObservationLogReply, error) {
+	d.deletes++
+	if d.fail {
+		return nil, fmt.Errorf("db manager is down")
+	}
+	delete(d.rows, t.Name)
+	return &api.DeleteObservationLogReply{}, nil
+}
+func (d *rowsDB) ReportTrialObservationLog(*trialsv1beta1.Trial, *api.ObservationLog) (*api.ReportObservationLogReply, error) {
+	return &api.ReportObservationLogReply{}, nil
+}
+
+// c07Finalizer: a Trial under deletion that may hold further finalizers (foreground deletion, a third party's): its
+// observation logs are removed from the metrics database before the katib finalizer is released
+func c07Finalizer(rng *rand.Rand) Case {
+	getValidator()
+	extra := pick(rng, []string{"none", "none", "foregroundDeletion", "example.com/keep"})
+	dbFail := rng.Intn(4) == 0
+	completed := rng.Intn(2) == 0
+	fins := []string{"clean-metrics-in-db"}
+	if extra != "none" {
+		if rng.Intn(2) == 0 {
+			fins = append(fins, extra)
+		} else {
+			fins = append([]string{extra}, fins...)
+		}
+	}
+	name, ns := "trial-d", "team-a"
+	rs := &unstructured.Unstructured{Object: map[string]interface{}{"apiVersion": "batch/v1", "kind": "Job", "metadata": map[string]interface{}{"name": name, "namespace": ns},
+		"spec": map[string]interface{}{"template": map[string]interface{}{"spec": map[string]interface{}{"restartPolicy": "Never",
+			"containers": []interface{}{map[string]interface{}{"name": "training", "image": "busybox"}}}}}}}
+	tr := &trialsv1beta1.Trial{
+		ObjectMeta: metav1.ObjectMeta{Name: name, Namespace: ns, UID: types.UID("uid-" + name), Finalizers: fins},
+		Spec: trialsv1beta1.TrialSpec{
+			Objective: &commonv1beta1.ObjectiveSpec{Type: commonv1beta1.ObjectiveTypeMaximize, ObjectiveMetricName: "acc",
+				MetricStrategies: []commonv1beta1.MetricStrategy{{Name: "acc", Value: commonv1beta1.ExtractByMax}}},
+			PrimaryContainerName: "training",
+			SuccessCondition:     `status.conditions.#(type=="Complete")#|#(status=="True")#`,
+			FailureCondition:     `status.conditions.#(type=="Failed")#|#(status=="True")#`,
+			RunSpec:              rs,
+		},
+	}
+	tr.MarkTrialStatusCreated("TrialCreated", "Trial is created")
+	if completed {
+		tr.MarkTrialStatusSucceeded(corev1.ConditionTrue, "TrialSucceeded", "Trial has succeeded")
+	}
+	c := fake.NewClientBuilder().WithScheme(valScheme).WithStatusSubresource(&trialsv1beta1.Trial{}).WithObjects(tr).Build()
+	db := &rowsDB{rows: map[string]int{name: 7, "another-trial": 2}, fail: dbFail}
+	r := trialctl.NewVerifReconciler(c, valScheme, record.NewFakeRecorder(100), db, trialutil.NewTrialsCollector(nil, prometheus.NewRegistry()))
+	op := fmt.Sprintf("C07J finalizer %s %s %s", b01(extra != "none"), b01(dbFail), b01(completed))
+	impl := ""
+	func() {
+		defer func() {
+			if e := recover(); e != nil {
+				impl = "panic"
+			}
+		}()
+		_ = c.Delete(context.TODO(), tr)
+		for i := 0; i < 3; i++ {
+			_, _ = r.Reconcile(context.TODO(), reconcile.Request{NamespacedName: types.NamespacedName{Namespace: ns, Name: name}})
+		}
+		released := true
+		got := &trialsv1beta1.Trial{}
+		if err := c.Get(context.TODO(), types.NamespacedName{Namespace: ns, Name: name}, got); err == nil {
+			for _, f := range got.Finalizers {
+				if f == "clean-metrics-in-db" {
+					released = false
+				}
+			}
+		}
+		impl = fmt.Sprintf("released=%s rows=%d other=%d", b01(released), db.rows[name], db.rows["another-trial"])
+	}()
+	return Case{Ops: []string{op}, Impl: []string{impl}, Tags: []string{"finalizer-scenario", "extra-finalizer=" + extra, fmt.Sprintf("db-fails=%v", dbFail)}}
+}
+
 func init() {
 	runners["C07J"] = func(rng *rand.Rand, tier string, k int) Case {
 		getValidator()
+		if k%4 == 3 {
+			return c07Finalizer(rng)
+		}
 		trialNs := pick(rng, []string{"kubeflow", "team-a"})
 		specNs := pick(rng, []string{trialNs, trialNs, trialNs, "team-x", "", "default"})
 		name := pick(rng, []string{"trial-a", "exp-abcdefgh", "t"})
